@@ -1,3 +1,7 @@
+mod adv;
+mod crash;
+mod fault;
+mod jfile;
 mod journal;
 mod store;
 mod util;
@@ -15,7 +19,7 @@ fn main() {
     let args: Vec<String> = std::env::args().collect();
     let cmd = args.get(1).map(String::as_str).unwrap_or("");
     // panics in the code under test are data; keep the default hook quiet
-    std::panic::set_hook(Box::new(|_| {}));
+    if std::env::var("VH_PANIC_VERBOSE").is_err() { std::panic::set_hook(Box::new(|_| {})); }
     match cmd {
         "replay" => {
             let a = store::ReplayArgs {
@@ -36,6 +40,69 @@ fn main() {
             };
             std::fs::create_dir_all(&a.out_dir).ok();
             let out = store::run_replay(&a);
+            println!("{}", serde_json::to_string(&json!({"result": out.to_json()})).unwrap());
+        }
+        "crash" => {
+            let a = crash::CrashArgs {
+                file: PathBuf::from(arg(&args, "--file").expect("--file")),
+                out_dir: PathBuf::from(arg(&args, "--out").unwrap_or("/verif/work".into())),
+                property: arg(&args, "--property").unwrap_or("C02".into()),
+                seed: arg(&args, "--seed").and_then(|s| s.parse().ok()).unwrap_or(1),
+                nkeys: arg(&args, "--nkeys").and_then(|s| s.parse().ok()).unwrap_or(2),
+                power: args.iter().any(|x| x == "--power"),
+                manual_persist: args.iter().any(|x| x == "--manual-persist"),
+                split: !args.iter().any(|x| x == "--no-split"),
+                allowed_kf: arg(&args, "--kf")
+                    .map(|s| s.split(',').filter(|x| !x.is_empty()).map(String::from).collect())
+                    .unwrap_or_default(),
+                max_behaviours: arg(&args, "--max").and_then(|s| s.parse().ok()).unwrap_or(0),
+                image_stride: arg(&args, "--stride").and_then(|s| s.parse().ok()).unwrap_or(1),
+            };
+            std::fs::create_dir_all(&a.out_dir).ok();
+            let out = crash::run_crash(&a);
+            println!("{}", serde_json::to_string(&json!({"result": out.to_json()})).unwrap());
+        }
+        "fault" => {
+            let a = fault::FaultArgs {
+                file: PathBuf::from(arg(&args, "--file").expect("--file")),
+                out_dir: PathBuf::from(arg(&args, "--out").unwrap_or("/verif/work".into())),
+                property: arg(&args, "--property").unwrap_or("C13".into()),
+                seed: arg(&args, "--seed").and_then(|s| s.parse().ok()).unwrap_or(1),
+                nkeys: arg(&args, "--nkeys").and_then(|s| s.parse().ok()).unwrap_or(2),
+                allowed_kf: arg(&args, "--kf")
+                    .map(|s| s.split(',').filter(|x| !x.is_empty()).map(String::from).collect())
+                    .unwrap_or_default(),
+                max_behaviours: arg(&args, "--max").and_then(|s| s.parse().ok()).unwrap_or(0),
+                stride: arg(&args, "--stride").and_then(|s| s.parse().ok()).unwrap_or(1),
+            };
+            std::fs::create_dir_all(&a.out_dir).ok();
+            let out = fault::run_fault_seq(&a);
+            println!("{}", serde_json::to_string(&json!({"result": out.to_json()})).unwrap());
+        }
+        "fault-mt" => {
+            let a = fault::FaultMtArgs {
+                out_dir: PathBuf::from(arg(&args, "--out").unwrap_or("/verif/work".into())),
+                seed: arg(&args, "--seed").and_then(|s| s.parse().ok()).unwrap_or(1),
+                runs: arg(&args, "--runs").and_then(|s| s.parse().ok()).unwrap_or(20),
+                threads: arg(&args, "--threads").and_then(|s| s.parse().ok()).unwrap_or(4),
+                ops_per_thread: arg(&args, "--ops").and_then(|s| s.parse().ok()).unwrap_or(30),
+            };
+            std::fs::create_dir_all(&a.out_dir).ok();
+            let out = fault::run_fault_mt(&a);
+            println!("{}", serde_json::to_string(&json!({"result": out.to_json()})).unwrap());
+        }
+        "jcut" | "jalter" => {
+            let a = jfile::JArgs {
+                out_dir: PathBuf::from(arg(&args, "--out").unwrap_or("/verif/work".into())),
+                property: arg(&args, "--property").unwrap_or("C03".into()),
+                seed: arg(&args, "--seed").and_then(|s| s.parse().ok()).unwrap_or(1),
+                stride: arg(&args, "--stride").and_then(|s| s.parse().ok()).unwrap_or(1),
+                allowed_kf: arg(&args, "--kf")
+                    .map(|s| s.split(',').filter(|x| !x.is_empty()).map(String::from).collect())
+                    .unwrap_or_default(),
+            };
+            std::fs::create_dir_all(&a.out_dir).ok();
+            let out = if cmd == "jcut" { jfile::run_cut(&a) } else { jfile::run_alter(&a) };
             println!("{}", serde_json::to_string(&json!({"result": out.to_json()})).unwrap());
         }
         _ => {
